@@ -369,7 +369,9 @@ func kvLiteral(tb *termBuilder, v ssa.Value) (key, val *Term, ok bool) {
 	return key, val, key != nil && val != nil
 }
 
-func checkCommitAlgebra(c *Ctx, commit *ssa.Function) { checkCommitAlgebraAs(c, "C05.R3 commit-algebra", commit) }
+func checkCommitAlgebra(c *Ctx, commit *ssa.Function) {
+	checkCommitAlgebraAs(c, "C05.R3 commit-algebra", commit)
+}
 
 func checkCommitAlgebraAs(c *Ctx, rule string, commit *ssa.Function) {
 	p := c.P
